@@ -25,6 +25,9 @@ type stateDecode struct {
 
 	decodeType bool
 	decoder    *decoder
+
+	// bytes available to the value whose type is being unfolded
+	limit int
 }
 
 // Decode
@@ -68,6 +71,7 @@ func getDecoder(packet []byte, state *stateDecode) (*decoder, []byte, error) {
 	if len(packet) == 0 {
 		return nil, nil, errDecodeEOD
 	}
+	state.limit = len(packet)
 
 	id := packet[0]
 	packet = packet[1:]
@@ -350,6 +354,12 @@ func decodeType(fold []byte, state *stateDecode) (*decoder, []byte, error) {
 		}
 		if len(f) > 0 {
 			return nil, nil, fmt.Errorf("extra data in folded type (array): %#v", f)
+		}
+
+		// every element takes at least one byte: an array cannot be longer than
+		// the data it comes with (do not allocate what a length field claims)
+		if state.limit > 0 && decItem.Type.Size() > 0 && n > state.limit {
+			return nil, nil, fmt.Errorf("array length %d exceeds the size of the data", n)
 		}
 
 		vtype := reflect.ArrayOf(n, decItem.Type)
